@@ -39,6 +39,20 @@ async fn handle_connection(mut socket: TcpStream, controller: Arc<NodeController
         let frame_len = u32::from_le_bytes(len_buf) as usize;
         if frame_len == 0 || frame_len > MAX_FRAME_LEN {
             send_response(&mut socket, "ERR invalid frame length").await?;
+            // Skip the body the client announced; otherwise its bytes would be parsed as
+            // further frames and the connection would lose frame synchronisation.
+            let mut remaining = frame_len;
+            let mut sink = [0u8; 4096];
+            while remaining > 0 {
+                let n = remaining.min(sink.len());
+                if let Err(e) = socket.read_exact(&mut sink[..n]).await {
+                    if e.kind() == std::io::ErrorKind::UnexpectedEof {
+                        return Ok(());
+                    }
+                    return Err(e.into());
+                }
+                remaining -= n;
+            }
             continue;
         }
 
